@@ -109,6 +109,8 @@ def prepare(scn: dict) -> Tuple[str, str, set]:
     if scn.get('dest_exists', True) and not scn.get('missing_parent'):
         with open(dest, 'wb') as f:
             f.write(OLD)
+        if scn.get('dest_mode') is not None:
+            os.chmod(dest, scn['dest_mode'])
     if scn.get('stale_tmp'):
         with open(os.path.join(d, 'tmp_1'), 'wb') as f:
             f.write(b'stale temp of a dead process')
@@ -133,7 +135,8 @@ def judge(run, scn: dict, outcome: str, dest: str, before: set, action: tuple, l
     old = OLD if (scn.get('dest_exists', True) and not scn.get('missing_parent')) else None
     new = expected_new(scn)
     what_boundary = next((f'{k}:{kind} {name}' for k, kind, name in log if action[0] != 'none' and k == action[1]), 'none')
-    tag = {'none': 'no injection', 'crash': 'crash', 'fault': 'injected ' + errno.errorcode.get(action[2], '?') if action[0] == 'fault' else ''}[action[0]]
+    tag = {'none': 'no injection', 'crash': 'crash',
+           'fault': 'injected ' + (action[2] if isinstance(action[2], str) else errno.errorcode.get(action[2], '?')) if action[0] == 'fault' else ''}[action[0]]
     run.count('directory_inspections')
 
     def fail(what: str, key: str) -> None:
@@ -185,6 +188,10 @@ def scenarios(thorough: bool) -> List[dict]:
     out.append({'is_bytes': True, 'writes': [20000], 'missing_parent': True})
     out.append({'is_bytes': True, 'writes': [20000], 'dest_exists': False})
     out.append({'is_bytes': True, 'writes': [20000], 'dest_exists': False, 'raise_at': 0})
+    # the destination as the operating system may present it: read-only (a checked-in or write-protected file), owner-only
+    out.append({'is_bytes': True, 'writes': [9000, 20000], 'dest_mode': 0o444})
+    out.append({'is_bytes': False, 'writes': [70000], 'dest_mode': 0o444, 'raise_at': 1})
+    out.append({'is_bytes': True, 'writes': [5], 'dest_mode': 0o400, 'flush_after': [0]})
     out.append({'is_bytes': True, 'writes': [12000, 5], 'reenter': True})
     out.append({'is_bytes': False, 'writes': [12000, 5], 'reenter': True, 'raise_at': 1})
     # restarted attempts and an exit without enter: judged without injected faults and under crashes only (an injected
@@ -275,6 +282,11 @@ def enumerate_writer(run, thorough: bool) -> None:
                 for e in ERRNOS:
                     run_with_action(run, scn, ('fault', k, e), 'atomicwriter', {'scenario': scn, 'action': ['fault', k, e]})
                     run.case([si, 'fault', k, e], inside)
+                # an exception that is not an OSError arriving at the same boundary (Ctrl-C, out of memory)
+                e2 = ('KeyboardInterrupt', 'MemoryError')[(si + k) % 2]
+                run_with_action(run, scn, ('fault', k, e2), 'atomicwriter', {'scenario': scn, 'action': ['fault', k, e2]})
+                run.count('non_oserror_injections')
+                run.case([si, 'fault', k, e2], inside)
             total += 1
         if si < 2:
             run.sample({'scenario': scn, 'boundaries': [f'{k}:{kind} {name}' for k, kind, name in log]}, 'atomicwriter')
@@ -643,7 +655,7 @@ def main(run, shard=(0, 1)) -> None:
     run.exhaustive = False
     probe.report(run)
     probe.check_reached(run)
-    run.require('boundaries_enumerated', 'crash_runs', 'fault_runs', 'directory_inspections', 'interleavings_run', 'bsp_crash_runs', 'bsp_save_boundaries', 'abandon_runs')
+    run.require('boundaries_enumerated', 'crash_runs', 'fault_runs', 'directory_inspections', 'interleavings_run', 'bsp_crash_runs', 'bsp_save_boundaries', 'abandon_runs', 'non_oserror_injections')
 
 
 def replay(run, data) -> None:
